@@ -1417,7 +1417,7 @@ engine_gen(struct plan * P, uint64_t seed, struct prng * g)
 	ps = faulty && prng_chance(g, 70) ? (int)prng_n(g, 40) : 0;
 	perr = faulty && prng_chance(g, 25) ? 1 + (int)prng_n(g, 4) : 0;
 	plan_add(P, "knob", "scenario", 1, (int64_t)scenario);
-	plan_add(P, "knob", "fd_base", 1, (int64_t)(prng_chance(g, 20) ? 3 + prng_n(g, 200) : 3));
+	plan_add(P, "knob", "fd_base", 1, (int64_t)(prng_chance(g, 20) ? 3 + prng_n(g, 200) : prng_chance(g, 15) ? 0 : 3));
 	plan_add(P, "knob", "tick_ns", 1, prng_chance(g, 25) ? (int64_t)prng_n(g, 3000) : (int64_t)0);
 	plan_add(P, "knob", "fill", 1, (int64_t)(prng_chance(g, 50) ? 256 : (prng_chance(g, 50) ? 0xff : 0)));
 
@@ -1734,8 +1734,8 @@ engine_run(const struct plan * P)
 
 	snprintf(R->crash_prop, sizeof(R->crash_prop), "%s", (plan_knob(P, "scenario", 0) >= 5 && plan_knob(P, "scenario", 0) <= 9) ? "C07" : "C06");
 	vk_fd_base = (int)plan_knob(P, "fd_base", 3);
-	if (vk_fd_base < 3)
-		vk_fd_base = 3;
+	if (vk_fd_base < 0)
+		vk_fd_base = 0;	/* (a daemon with descriptors 0-2 closed gets 0 from socket()) */
 	if (vk_fd_base > 300)
 		vk_fd_base = 300;
 	vk_tick_ns = (uint64_t)plan_knob(P, "tick_ns", 0);
